@@ -343,4 +343,76 @@ theorem ptLoop_cookies (chk : Bool) (vs : List Bytes) (fuel : Nat) (cs : List By
     rw [this, ih f' (cs ++ [v]) (by omega) (by omega) (fun w hw => hl w (by simp [hw]))]
     simp [List.append_assoc]
 
+
+/-! ### sizes for arbitrary (unaligned) value lengths: no truncation, no panic when it fits -/
+
+def paddedLen (vs : List Bytes) : Nat := (vs.map fun c => 4 + pad4 c.length).sum
+
+theorem packValue_len (cap t : Nat) (out v : Bytes)
+    (hfit : out.length + 4 + pad4 v.length ≤ cap) (h16 : cap < 65536) :
+    ∃ out', packValue cap t out v = .ok out' ∧ out'.length = out.length + 4 + pad4 v.length := by
+  have hp := pad4_ge v.length
+  have h1 : ¬ (cap - out.length < 4) := by omega
+  simp only [packValue, putHdr, h1, if_false, Res.pure_eq, copyTrunc, bind, Res.bind]
+  refine ⟨_, rfl, ?_⟩
+  simp only [List.length_append, be16_length, List.length_take, zeros_length]
+  omega
+
+theorem packList_len (cap t : Nat) (vs : List Bytes) (out : Bytes)
+    (hfit : out.length + paddedLen vs ≤ cap) (h16 : cap < 65536) :
+    ∃ out', packList cap t vs out = .ok out' ∧ out'.length = out.length + paddedLen vs := by
+  induction vs generalizing out with
+  | nil => exact ⟨out, rfl, by simp [paddedLen]⟩
+  | cons v vs ih =>
+    simp only [paddedLen, List.map_cons, List.sum_cons] at hfit
+    obtain ⟨o1, e1, l1⟩ := packValue_len cap t out v (by omega) h16
+    obtain ⟨o2, e2, l2⟩ := ih o1 (by simp only [paddedLen]; omega)
+    refine ⟨o2, ?_, ?_⟩
+    · rw [packList, e1]; exact e2
+    · simp only [paddedLen, List.map_cons, List.sum_cons] at l2 ⊢; omega
+
+theorem packAuth_len (A : AEAD) (hs : A.Sized) (cap : Nat) (out key pt nonce : Bytes)
+    (hk : keyOk key = true) (hn : nonce.length = 16)
+    (hfit : out.length + 24 + pad4 (pt.length + 16) ≤ cap) (h16 : cap < 65536) :
+    ∃ out', packAuth A cap out key pt nonce = .ok out' ∧ out'.length = out.length + 24 + pad4 (pt.length + 16) := by
+  have hct := hs key nonce pt (some out)
+  have hn' : ¬ (nonce.length ≠ 16) := by omega
+  have e1 : nonce.length % 65536 = 16 := by omega
+  have e2 : (65536 - 16) % 65536 % 4 = 0 := by decide
+  simp only [packAuth, hk, Bool.not_true, Bool.false_eq_true, if_false, sealC, hn', e1, e2, bind, Res.bind]
+  generalize A.sealF key nonce pt (some out) = ct at hct ⊢
+  have hp := pad4_ge (pt.length + 16)
+  have hpm := pad4_mod (pt.length + 16)
+  have e3 : ct.length % 65536 = ct.length := by omega
+  have h1 : ¬ (cap - out.length < 4) := by omega
+  simp only [e3, putHdr, h1, if_false]
+  have h2 : ¬ (cap - (out ++ be16 extAuthenticator ++
+      be16 ((8 + 16 + 0 + ct.length + (65536 - ct.length) % 65536 % 4) % 65536)).length < 4) := by
+    simp; omega
+  simp only [h2, if_false, Res.pure_eq, copyTrunc]
+  refine ⟨_, rfl, ?_⟩
+  simp only [List.length_append, be16_length, List.length_take, zeros_length, hn]
+  unfold pad4 at *
+  omega
+
+/-- `EncodePacket` succeeds without truncation whenever the padded sizes fit, for any value lengths. -/
+theorem encode_len (fixed : Bool) (A : AEAD) (hs : A.Sized) (hdr : Bytes) (p : Packet) (nonce : Bytes)
+    (hh : hdr.length = ntpPacketLen) (hu : 32 ≤ p.uid.length) (hk : keyOk p.key = true) (hn : nonce.length = 16)
+    (fit : ntpPacketLen + (4 + pad4 p.uid.length) + paddedLen p.cookies + paddedLen p.placeholders +
+      (24 + pad4 (p.pt.length + 16)) ≤ maxPacketLen) :
+    ∃ b, encodePacketG fixed A hdr p nonce = .ok b ∧
+      b.length = ntpPacketLen + (4 + pad4 p.uid.length) + paddedLen p.cookies + paddedLen p.placeholders +
+        (24 + pad4 (p.pt.length + 16)) := by
+  unfold ntpPacketLen maxPacketLen at fit
+  have h48 : hdr.length = 48 := hh
+  have h0 : ¬ (hdr.length ≠ ntpPacketLen) := by unfold ntpPacketLen; omega
+  have hu' : ¬ (p.uid.length < 32) := by omega
+  obtain ⟨o1, e1, l1⟩ := packValue_len 1024 extUniqueIdentifier hdr p.uid (by omega) (by omega)
+  obtain ⟨o2, e2, l2⟩ := packList_len 1024 extCookie p.cookies o1 (by omega) (by omega)
+  obtain ⟨o3, e3, l3⟩ := packList_len 1024 (phType fixed) p.placeholders o2 (by omega) (by omega)
+  obtain ⟨o4, e4, l4⟩ := packAuth_len A hs 1024 o3 p.key p.pt nonce hk hn (by omega) (by omega)
+  refine ⟨o4, ?_, by unfold ntpPacketLen; omega⟩
+  unfold encodePacketG
+  simp only [h0, if_false, packUid, hu', maxPacketLen, e1, bind, Res.bind, e2, e3, e4, errToPanic]
+
 end ScionTime.Nts
